@@ -72,6 +72,24 @@ Theorem C14_translated_encrypt_is_model :
 Proof. exact RV.Proofs.CodeEnvelope.gen_encrypt_seed_model. Qed.
 Print Assumptions C14_translated_encrypt_is_model.
 
+(* C14 of the code as written: the round trip and panic-freedom hold of the TRANSLATED functions *)
+Theorem C14_translated_roundtrip :
+  forall seal open wrap unwrap dek nonce p w,
+    length dek = 32%nat -> length nonce = 12%nat -> (32 <= length p)%nat ->
+    length (seal dek nonce AD p) = (length p + 16)%nat ->
+    open dek nonce AD (seal dek nonce AD p) = Some p ->
+    wrap dek = Ok w -> unwrap w = Ok dek -> (N.of_nat (length w) < 65536) ->
+    exists blob, RV.Gen.Code.gen_encrypt_seed nonce dek wrap seal tt p = Ok blob
+                 /\ RV.Gen.Code.gen_decrypt_seed unwrap open tt blob = Ok p.
+Proof. exact RV.Proofs.CodeEnvelope.gen_roundtrip. Qed.
+Print Assumptions C14_translated_roundtrip.
+
+Theorem C14_translated_decrypt_never_panics :
+  forall open unwrap, (forall w, is_panic (unwrap w) = false) ->
+  forall blob, is_panic (RV.Gen.Code.gen_decrypt_seed unwrap open tt blob) = false.
+Proof. exact RV.Proofs.CodeEnvelope.gen_decrypt_no_panic. Qed.
+Print Assumptions C14_translated_decrypt_never_panics.
+
 (* ---- tie to the source: the integer literals of the functions this property's model stands for
    (private constants, bounds, unit factors; the files are SiteMap.files_C14) are today the ones the
    model was written against. Gen/Sites.v num_literals is regenerated from /repo on every run; a
